@@ -242,7 +242,7 @@ META = {
     'required_labels': ['c20.not-ahead-of-wall-clock', 'c20.strict-raise-iff-too-slow', 'c20.same-sequence', 'c20.same-times'],
     'required_covers': ['nontrivial', 'strict-raised', 'slept', 'sync', 'driven-by-run'],
     'bounds': {'quick': 'programs of <= 2 occurrences (1-2 processes), factor in {1/2,1,2}, strict and non-strict, <= 1 early sleep '
-                        'return per step, symbolic initial time, sync() before step 0/1/2/3; driven by step() loops and by one or several run()/run(until) calls with idle wall time and sync() between them',
+                        'return per step, symbolic initial time, sync() before step 0/1/2/3; driven by step() loops and by one or several run()/run(until) calls with idle wall time and sync() between them; steps taken inside run() / run(until=event) observed by a probing subclass; integer clock 2**60 + 1',
                'thorough': '<= 3 occurrences, <= 2 early returns per step'},
     'assumptions': ['monotonic(): previous reading plus an arbitrary amount >= 0; sleep(d): arbitrary advance >= 0 for the first r '
                     'calls of a step, then >= d', '"on turning to the next occurrence" = the first clock reading step() takes'],
